@@ -343,13 +343,52 @@ func c10Check(env *core.Env, ci any) (res core.Result) {
 			return
 		}
 	}
+	// the same accepted literals on the wasm target (types up to 64 bits, positions the wasm back end supports)
+	winc := make([]bool, n)
+	nw := 0
+	for i, l := range c.Lits {
+		if include[i] && !strings.Contains(l.T, "128") && !strings.Contains(l.T, "256") && (l.Pos == "init" || l.Pos == "arg" || l.Pos == "ret") {
+			winc[i] = true
+			nw++
+		}
+	}
+	if nw > 0 {
+		text, _, ord := c10Program(c.Lits, winc)
+		dir := env.NextDir()
+		sut.WriteProject(dir, map[string]string{"main.fer": text})
+		wp := filepath.Join(dir, "out.wasm")
+		r := tc.Compile(dir, sut.CompileOpts{Target: "wasm", Out: wp})
+		if r.Crash == "" && !r.TimedOut && r.Exit == 0 && len(r.Errors()) == 0 && fileExists(wp) {
+			if wr, err := wasmRunner(env); err == nil {
+				if w, err := wr.Run(wp); err == nil && w.Status == "ok" {
+					env.Stats.Label("wasm_values_checked")
+					for k, i := range ord {
+						got := "<missing>"
+						if k < len(w.Lines) {
+							got = w.Lines[k]
+						}
+						if got != vals[i].String() {
+							l := c.Lits[i]
+							res.Violation = fmt.Sprintf("literal `%s` of type %s at position %s: the wasm module observes %s, mathematical value is %s\nprogram:\n%s", l.Spell, l.T, l.Pos, got, l.Val, text)
+							res.VKey = "wrong_value:wasm"
+							return
+						}
+					}
+				} else if err == nil && w.Status != "ok" {
+					env.Stats.Label("wasm_not_run:" + w.Status)
+				}
+			}
+		} else {
+			env.Stats.Label("wasm_not_compiled")
+		}
+	}
 	return
 }
 
 func init() {
 	core.Register(&core.Prop{
 		ID:    "C10",
-		Rule:  "rapid-generated batches of 6-40 integer literals: type in the 12 integer types x value (range boundaries +-2, boundaries of other types +-1, 2^k+-1 up to k=300, small, uniform by bit length up to width+2 and sometimes 300 bits) x spelling (decimal/0x/0o/0b, upper/lower-case prefix and digits, single underscores between digits, leading zeros (after a prefix and on plain decimal literals), negation as -lit, '- lit', -(lit), parenthesised) x position (let initialiser, call argument, return value, struct field initialiser, fixed-array element). Oracle math/big: the set of lines `ferret -t` rejects must equal the out-of-range set exactly, and the accepted lines, compiled natively and run, must print their exact decimal value. non-trivial = within 2 of a range boundary, or non-decimal, or >= 65 bits; distinct = (type, spelling, position)",
+		Rule:  "rapid-generated batches of 6-40 integer literals: type in the 12 integer types x value (range boundaries +-2, boundaries of other types +-1, 2^k+-1 up to k=300, small, uniform by bit length up to width+2 and sometimes 300 bits) x spelling (decimal/0x/0o/0b, upper/lower-case prefix and digits, single underscores between digits, leading zeros (after a prefix and on plain decimal literals), negation as -lit, '- lit', -(lit), parenthesised) x position (let initialiser, call argument, return value, struct field initialiser, fixed-array element). Oracle math/big: the set of lines `ferret -t` rejects must equal the out-of-range set exactly, and the accepted lines, compiled natively and run, must print their exact decimal value; those of at most 64 bits in initialiser / argument / return position must print it on the wasm target as well. non-trivial = within 2 of a range boundary, or non-decimal, or >= 65 bits; distinct = (type, spelling, position)",
 		Gen:   c10Gen,
 		New:   func() any { return &c10Case{} },
 		Check: c10Check,
